@@ -29,7 +29,11 @@ NoRec == [none |-> TRUE]
 
 \* nil and empty values are the same stored value
 StoredVal(v) == IF v \in {"nil", "empty"} THEN "" ELSE v
+\* expiration classes: none; s1 / s3: one / three ticks ahead (time moves two ticks per Advance); f23 / f27: for the
+\* fine-grained time configuration (one Advance = 2 ticks of 100 ms: the record must live 2.2 s and be gone at 2.4 s,
+\* resp. live 2.6 s and be gone at 2.8 s); long / far: never reached (far = year 9999); past: already expired when written
 AbsExp(t, c) == CASE c = "none" -> 0 [] c = "s1" -> t + 1 [] c = "s3" -> t + 3 [] c = "long" -> t + 99
+                  [] c = "f23" -> t + 23 [] c = "f27" -> t + 27 [] c = "far" -> t + 9999 [] c = "past" -> t - 1
 
 \* glob matching over character tuples: "*" any sequence, "?" any one character
 RECURSIVE GlobMatch(_, _)
@@ -47,8 +51,9 @@ Fresh(s) == s.nextVer
 RecOut(s, k) == [k |-> k, val |-> s.store[k].val, ver |-> s.store[k].ver, exp |-> s.store[k].exp]
 
 \* write one record under a fresh version
+\* (a record written with an expiration that has already passed replaces what was there and is gone at once: C06)
 Write(s, k, v, e) ==
-    [s EXCEPT !.store[k] = [val |-> StoredVal(v), ver |-> s.nextVer, exp |-> AbsExp(s.now, e)],
+    [s EXCEPT !.store[k] = IF e = "past" THEN NoRec ELSE [val |-> StoredVal(v), ver |-> s.nextVer, exp |-> AbsExp(s.now, e)],
               !.nextVer = @ + 1]
 
 RECURSIVE WriteMany(_, _)
@@ -131,9 +136,9 @@ Calls(s) ==
     \cup {[op |-> "Delete", k |-> k] : k \in Keys}
     \cup {[op |-> "GetMany", ks |-> ks] : ks \in SeqsUpTo(Keys, ManyLen)}
     \cup {[op |-> "PutMany", recs |-> [j \in 1 .. Len(ks) |-> [k |-> ks[j], val |-> IF j = 1 THEN "x" ELSE "y", exp |-> es[j]]]] :
-              ks \in SeqsUpTo(Keys, ManyLen), es \in [1 .. ManyLen -> ExpClasses \cap {"none", "s1", "long"}]}
+              ks \in SeqsUpTo(Keys, ManyLen), es \in [1 .. ManyLen -> ExpClasses \cap {"none", "s1", "long", "past", "f23", "f27"}]}
     \cup UNION {{[op |-> "Cas", k |-> k, arg |-> a, val |-> v, exp |-> e] :
-                    a \in VerArgs(s, k), v \in InVals \cap {"x", "nil"}, e \in ExpClasses \cap {"none", "s1"}} : k \in Keys}
+                    a \in VerArgs(s, k), v \in InVals \cap {"x", "nil"}, e \in ExpClasses \cap {"none", "s1", "past", "f23", "f27"}} : k \in Keys}
     \cup {[op |-> "ListKeys", pat |-> p] : p \in Pats}
     \cup UNION {{[op |-> "Wait", k |-> k, arg |-> a] :
                     a \in {x \in VerArgs(s, k) : ~Present(s, k) \/ x # s.store[k].ver}} : k \in Keys}
